@@ -190,6 +190,127 @@ func runC13(c *Ctx) {
 		}
 	}
 
+	// ------------------------------------------------------------ T4
+	c.Rule("C13.T4", "GATE", "canonical form: when (*Trie).delete collapses a branch with one remaining child into a one-nibble short node that keeps the child as its value, every path to that return either has the remaining entry at the value slot (pos == 16) or has tested the RESOLVED child (the result of t.resolve) not to be a short node — otherwise a shortNode{…, shortNode{…}} is built and the root depends on history")
+	c.Min(1)
+	del := w.Fn("trie", "Trie", "delete")
+	resolveObj := w.FuncObj("trie", "Trie", "resolve")
+	nT4 := 0
+	for _, b := range del.Blocks {
+		r, ok := b.Instrs[len(b.Instrs)-1].(*ssa.Return)
+		if !ok || b == del.Recover {
+			continue
+		}
+		// returned node: a fresh shortNode whose Val is loaded from n.Children[…]
+		al, ok := stripConv(r.Results[1]).(*ssa.Alloc)
+		if !ok || ownerName(al.Type()) != "shortNode" {
+			continue
+		}
+		keepsChild := false
+		for _, ref := range *al.Referrers() {
+			fa, ok := ref.(*ssa.FieldAddr)
+			if !ok || fieldOfAddr(fa).Name() != "Val" {
+				continue
+			}
+			for _, r2 := range *fa.Referrers() {
+				if st, ok := r2.(*ssa.Store); ok && st.Addr == fa {
+					if u, ok := st.Val.(*ssa.UnOp); ok {
+						if ia, ok := u.X.(*ssa.IndexAddr); ok {
+							if f, _ := loadedField(ia.X); f != nil && f.Name() == "Children" {
+								keepsChild = true
+							}
+							if fa2, ok := ia.X.(*ssa.FieldAddr); ok && fieldOfAddr(fa2).Name() == "Children" {
+								keepsChild = true
+							}
+						}
+					}
+				}
+			}
+		}
+		if !keepsChild {
+			continue
+		}
+		nT4++
+		c.sites++
+		okT := allPathsPassEdge(del, b, func(from, to *ssa.BasicBlock) bool {
+			f, isIf := edgeFact(from, to)
+			if !isIf {
+				return false
+			}
+			a := atomsOf([]Fact{f})[0]
+			// pos == 16
+			if a.Kind == "eq" && a.Truth {
+				if n, isC := constInt(a.Y); isC && n == 16 {
+					return true
+				}
+			}
+			// the resolved child is not a short node
+			if a.Kind == "true" && !a.Truth {
+				if e, ok := stripConv(a.X).(*ssa.Extract); ok && e.Index == 1 {
+					if ta, ok := e.Tuple.(*ssa.TypeAssert); ok && ownerName(ta.AssertedType) == "shortNode" {
+						if derivesFrom(ta.X, func(v ssa.Value) bool {
+							ex, ok := v.(*ssa.Extract)
+							if !ok {
+								return false
+							}
+							cc, ok := ex.Tuple.(*ssa.Call)
+							return ok && sameFunc(calleeObj(cc), resolveObj)
+						}) {
+							return true
+						}
+					}
+				}
+			}
+			return false
+		})
+		c.Check(fmt.Sprintf("%s#collapse-keeps-child@%s", fname(del), blockOrdinal(del, b)), r.Pos(), okT, ifelse(okT, "reached only for the value slot or after the resolved child was tested not to be a short node", "a branch is collapsed onto a child that was not resolved before the short-node test: an unloaded short-node child is nested instead of merged, the trie is no longer in canonical form and its root depends on history"))
+	}
+	if nT4 == 0 {
+		c.Undecided(fname(del)+"#collapse-keeps-child", del.Pos(), "the collapsing return of delete was not found")
+	}
+
+	// ------------------------------------------------------------ T5
+	c.Rule("C13.T5", "GATE", "(*Database).reference drops a repeated (parent, child) reference only for non-root parents: references held by the meta root are counted once per call, because Dereference releases one per call")
+	c.Min(1)
+	ref := w.Fn("trie", "Database", "reference")
+	c.sawFunc(fname(ref))
+	nT5 := 0
+	for _, b := range ref.Blocks {
+		r, ok := b.Instrs[len(b.Instrs)-1].(*ssa.Return)
+		if !ok || b == ref.Recover {
+			continue
+		}
+		// the "already tracked" return: dominated by a true comma-ok lookup in a children map
+		tracked, nonRoot := false, false
+		for _, a := range atomsOf(factsAt(b)) {
+			if a.Kind == "true" && a.Truth {
+				if e, ok := stripConv(a.X).(*ssa.Extract); ok && e.Index == 1 {
+					if lk, ok := e.Tuple.(*ssa.Lookup); ok && lk.CommaOk {
+						if f, _ := loadedField(lk.X); f != nil && f.Name() == "children" {
+							tracked = true
+						}
+					}
+				}
+			}
+			if a.Kind == "eq" && !a.Truth {
+				for _, v := range []ssa.Value{a.X, a.Y} {
+					if stripConv(v) == ssa.Value(ref.Params[2]) {
+						nonRoot = true
+					}
+				}
+			}
+		}
+		if !tracked {
+			continue
+		}
+		nT5++
+		c.sites++
+		c.Check(fname(ref)+"#duplicate-dropped-only-for-non-roots", r.Pos(), nonRoot, ifelse(nonRoot, "the early return is taken only with parent != {}", "a second reference of the same root is dropped while each Dereference still releases one: the first release frees a trie another holder still needs"))
+	}
+	if nT5 == 0 {
+		c.Undecided(fname(ref)+"#duplicate-dropped-only-for-non-roots", ref.Pos(), "the already-tracked return of reference was not found")
+	}
+
 	// ------------------------------------------------------------ T3
 	c.Rule("C13.T3", "GATE", "(*Trie).Commit hashes the root with the database and then bumps cachegen; (*Trie).Hash / hashRoot hash t.root")
 	c.Min(2)
